@@ -1504,6 +1504,10 @@ def _packet_rooted(F, b, S, views):
             if last in ('index', 'get', 'branch', 'ok_or', 'unwrap', 'split_at', 'split_first', 'first', 'as_ref', 'deref', 'into_iter', 'next') and n[2]:
                 n = n[2][0]
                 continue
+            if cb is not None and (cb.file or '').startswith('src/wire/') and n[2]:
+                # a parser helper of the wire module handing back (the rest of) the slice it was given
+                n = n[2][0]
+                continue
             return False
         if n[0] in ('proj', 'field', 'ref', 'deref', 'after', 'cast'):
             n = n[1]
